@@ -8,7 +8,9 @@ ID = "C16"
 PROPS_FILES = ["Gama/Props/C16.lean", "Gama/Props/C16Ls.lean"]
 LEAN_TARGETS = ["Gama.Props.C16", "Gama.Props.C16Ls"]
 DRIVERS = ["drv_sparse"]
-RULE = ("a case = one sparsity pattern with values (rows x cols, list of (col,value) per row, build style) driven "
+RULE = ("a case = one sparsity pattern with values (rows x cols, list of (col,value) per row, build style: plain / roomy / "
+        "network (cols unknown, replicate(n,r,c) of the finished matrix) / grow (fill k rows, replicate(n,r,c) into a larger "
+        "object, CONTINUE the fill on the replica; k random incl. 0)) driven "
         "through build/dump/replicate/graph/connected/levels/ppn/rcm/envelope/cholDec/solves/inverse/transpose^2; "
         "distinct by (rows, cols, pattern, values); non-trivial = at least 2 columns, at least one row with >= 2 "
         "entries (so graph, ordering and profile are not empty).  Stream bdchol: a case = one BlockDiagonal layout "
@@ -16,7 +18,9 @@ RULE = ("a case = one sparsity pattern with values (rows x cols, list of (col,va
         "definite), tolerance) driven through add_block/dump/replicate/UpperBlockDiagonal/cholDec; distinct by "
         "(blocks, values, tol); non-trivial = some block has band width >= 1")
 LEVEL_TEXT = ("Lean 4 theorems (all sizes, all patterns) about executable models of SparseMatrix build/replicate/"
-              "transpose, SparseMatrixGraph, connected(), RootedLevelStructure/PseudoPeripheralNode/"
+              "transpose (incl. the build machine with replicate(n,r,c) as a step followed by further new_row/add_element: for "
+              "every prefix, capacity and continuation the result holds exactly prefix ++ appended rows; the members replicate "
+              "copies are regenerated from smatrix.h), SparseMatrixGraph, connected(), RootedLevelStructure/PseudoPeripheralNode/"
               "ReverseCuthillMcKee, Envelope set/cholDec/solves/inverse on the packed profile, and BlockDiagonal "
               "(add_block/replicate/cholDec as the pointer walk over all blocks with the early return) + "
               "UpperBlockDiagonal row table; models tied to the "
@@ -28,7 +32,8 @@ LEVEL_NOTE = ("Trusted: Lean kernel, statements in Props/C16.lean, harness/c16_s
               "(SMat.WF), listed in ASSUMPTIONS.")
 TECHNIQUE = ("Lean 4 proof (loop invariants over the array programs, refinement packed profile -> dense LDL') + "
              "model/implementation correspondence + exact dense oracle")
-TRUSTED = ["translator tools/props/c16.py::translate (reads the first row of the cholDec loop from envelope.h; "
+TRUSTED = ["translator tools/gen/c16_members.py (members of SparseMatrix, constructor, replicate(n,r,c): assignments and memcpy counts)",
+           "translator tools/props/c16.py::translate (reads the first row of the cholDec loop from envelope.h; "
            "validated by the correspondence on defect counts)",
            "python exact-fraction oracle in tools/props/c16.py"]
 MODELLED = ["std::set<std::pair<int,int>> iteration order (modelled as a strictly sorted list)",
